@@ -328,7 +328,7 @@ func cmdCheck(args []string) int {
 
 	// discover harnesses and stubs
 	var hs []*harness
-	stubs := map[string]*ssa.Function{}
+	stubsByPkg := map[string]map[string]*ssa.Function{}
 	packages.Visit(ld.pkgs, nil, func(p *packages.Package) {
 		if !strings.HasPrefix(p.PkgPath, repoMod) {
 			return
@@ -343,7 +343,10 @@ func cmdCheck(args []string) int {
 				fmt.Fprintf(os.Stderr, "stub directive: no function %s in %s\n", d[1], p.PkgPath)
 				continue
 			}
-			stubs[d[0]] = f
+			if stubsByPkg[p.PkgPath] == nil {
+				stubsByPkg[p.PkgPath] = map[string]*ssa.Function{}
+			}
+			stubsByPkg[p.PkgPath][d[0]] = f
 		}
 		for name, mem := range sp.Members {
 			fn, ok := mem.(*ssa.Function)
@@ -395,7 +398,7 @@ func cmdCheck(args []string) int {
 		wg.Add(1)
 		go func(i int, h *harness) {
 			defer wg.Done()
-			results[i] = runHarness(ld, h, stubs, *tier, *trace, *maxPaths, sem)
+			results[i] = runHarness(ld, h, stubsFor(h, stubsByPkg), *tier, *trace, *maxPaths, sem)
 		}(i, h)
 	}
 	wg.Wait()
@@ -758,4 +761,30 @@ func replayEngine(ld *loaded, h *harness, stubs map[string]*ssa.Function, v *sym
 		}
 	}
 	return false
+}
+
+// stubsFor returns the stub table of a harness: directives declared in the harness's own package
+// or in any package it (transitively) imports. Stubs never leak into unrelated packages.
+func stubsFor(h *harness, byPkg map[string]map[string]*ssa.Function) map[string]*ssa.Function {
+	out := map[string]*ssa.Function{}
+	seen := map[*types.Package]bool{}
+	var order []*types.Package
+	var walk func(p *types.Package)
+	walk = func(p *types.Package) {
+		if seen[p] {
+			return
+		}
+		seen[p] = true
+		for _, q := range p.Imports() {
+			walk(q)
+		}
+		order = append(order, p) // dependencies first, the harness package last (it wins)
+	}
+	walk(h.fn.Pkg.Pkg)
+	for _, p := range order {
+		for k, v := range byPkg[p.Path()] {
+			out[k] = v
+		}
+	}
+	return out
 }
